@@ -23,6 +23,7 @@ import c13_descr
 
 import threading
 _LOCK = threading.Lock()
+FAMILY_NOTES = []     # directed family values no build can encode (kept in the evidence: they are wasted cases)
 WATCHDOG_S = 8.0        # seconds without an answer line before a driver is killed
 
 WIDE_FEATURES = ["enum", "real", "bits", "strings", "oid", "time", "default", "ext"]     # no SET, no recursion
@@ -136,9 +137,14 @@ def witness_values():
     return out
 
 
+class _Mods(dict):
+    def __missing__(self, key):          # a module that was not built under this option set
+        return {}
+
+
 class Variant:
     def __init__(self, k, opts, mods):
-        self.k, self.opts, self.mods = k, tuple(opts), {m["name"]: m for m in mods}
+        self.k, self.opts, self.mods = k, tuple(opts), _Mods((m["name"], m) for m in mods)
 
     def label(self):
         return "opt%d[%s]" % (self.k, " ".join(self.opts) or "(none)")
@@ -274,6 +280,8 @@ def check_module(run, rng, tier, variants, mname, values, classify, layer, model
                       "outputs": {variants[vi].label(): o for vi, o in outs.items()}}
             if len(groups) == 1 and not list(groups)[0].startswith("OK "):
                 run.count("%s_not_encodable_in_every_build(%s:%s)" % (layer, s, list(groups)[0].split()[0]))
+                if layer == "family" and len(FAMILY_NOTES) < 60 and (s == "der" or "DECFAIL" not in list(groups)[0]) and not (s == "uper" and "ENCFAIL" in list(groups)[0]):
+                    FAMILY_NOTES.append({"module": mname, "command_line": line, "every_build_answers": list(groups)[0]})
             if len(groups) > 1:
                 fid = classify(j, s, "enc-differs", groups)
                 if fid:
@@ -472,6 +480,7 @@ def descriptor_tie(run, variants, names, texts, classify, skel_inc, lib, model):
     must give the same verdict on the same pair of tables."""
     dumps = c13_descr.dump_all(variants, names, skel_inc, lib)
     mlines, mkeys = [], []
+    tabs = {}
     for n in names:
         if not (variants[0].mods.get(n) and variants[0].mods[n].get("exe")):
             continue
@@ -481,6 +490,7 @@ def descriptor_tie(run, variants, names, texts, classify, skel_inc, lib, model):
             run.violation("translator:dumpdescr", {"what": "dumpdescr does not build, link or run against the baseline build", "module": texts[n], "rc": rc0, "log": e0}, no_input=True)
             continue
         run.count("descriptor_tables_dumped")
+        tabs[(0, n)] = base
         for vi, var in enumerate(variants):
             if vi == 0 or (vi, n) not in dumps:
                 continue
@@ -489,6 +499,18 @@ def descriptor_tie(run, variants, names, texts, classify, skel_inc, lib, model):
             if tab is None:
                 run.violation("translator:dumpdescr", {"what": "dumpdescr does not build, link or run against the build " + var.label(), "module": texts[n], "rc": rc, "log": e}, no_input=True)
                 continue
+            tabs[(vi, n)] = tab
+            # non-vacuity of the erasure: how much of the raw tables DOES depend on the options
+            if tab["n"] == base["n"]:
+                for da, db in zip(base["d"], tab["d"]):
+                    if da["kind"] != db["kind"]:
+                        run.count("erased:native_vs_wide_op_table")
+                    if len(da["elems"]) == len(db["elems"]):
+                        for ea, eb in zip(da["elems"], db["elems"]):
+                            if (ea["flags"] ^ eb["flags"]) & 1:
+                                run.count("erased:ATF_POINTER_differs")
+            else:
+                run.count("erased:descriptor_sharing_differs")
             has_per = not (skips(var.opts, "uper") or skips(variants[0].opts, "uper"))
             has_oer = not (skips(var.opts, "oer") or skips(variants[0].opts, "oer"))
             diffs = c13_descr.bisimilar(base, tab, has_per, has_oer)
@@ -517,6 +539,46 @@ def descriptor_tie(run, variants, names, texts, classify, skel_inc, lib, model):
                     run.violation("correspondence:Options.table_sim", {"what": "coq/Rt/Options.v table_sim and lib/c13_descr.bisimilar disagree on a pair of dumped tables",
                                                                        "module": texts[n], "build": variants[vi].label(), "model": o, "python_equal": same,
                                                                        "model_command": ml[:3000]}, no_input=True)
+    return tabs
+
+
+def slots_tie(run, variants, mods, tabs, model):
+    """coq/Rt/Options.v type_slots / member_slots (the emitter's decision which of the OER / PER slots of a type
+    descriptor and of a member entry are filled) against the dumped tables of every build, for the named types of
+    the model-algebra family modules (whose constraints the generator knows)."""
+    lines, keys = [], []
+    for m in mods:
+        if not m.get("exe"):
+            continue
+        for ri, (tn, t) in enumerate(m["defs"]):
+            if t["k"] == "ref":
+                continue
+            for vi, var in enumerate(variants):
+                tab = tabs.get((vi, m["name"]))
+                if tab is None or ri >= tab["roots"]:
+                    continue
+                d = tab["d"][ri]
+                o, p = 0 if skips(var.opts, "oer") else 1, 0 if skips(var.opts, "uper") else 1
+                fl = "%d %d %d %d %d" % (o, p, 1 if "-fno-constraints" in var.opts else 0, 1 if "-fwide-types" in var.opts else 0, 1 if "-findirect-choice" in var.opts else 0)
+                lines.append("opt_slots %s %d 0 %d 0" % (fl, 1 if t.get("con") else 0, 1 if t["k"] == "choice" else 0))
+                keys.append((m, tn, var, "type", ("T" if d["oer"] != "None" else "N") + ("T" if d["per"] != "None" else "N")))
+                if t["k"] in ("seq", "choice") and len(t["ms"]) == len(d["elems"]):
+                    for (mn, mt, _o), e in zip(t["ms"], d["elems"]):
+                        lines.append("opt_mslots %d %d %d %d" % (o, p, 1 if "-fno-constraints" in var.opts else 0, 1 if (mt["k"] != "ref" and mt.get("con")) else 0))
+                        keys.append((m, tn + "." + mn, var, "member", ("T" if e["oer"] != "None" else "N") + ("T" if e["per"] != "None" else "N")))
+    if not lines:
+        return
+    rcm, mo, me = run_lines(model, lines, timeout=600)
+    if rcm != 0 or len(mo) != len(lines):
+        run.violation("correspondence:Options.type_slots", {"what": "model driver failed", "rc": rcm, "stderr": me[-800:]}, no_input=True)
+        return
+    for (m, where, var, what, got), l, o in zip(keys, lines, mo):
+        run.case("%s %s %s @%s" % (l, m["name"], where, " ".join(var.opts)))
+        run.count("emitter_slots_%s" % what)
+        if o[:2] != got:
+            run.violation("correspondence:Options.%s_slots" % what,
+                          {"what": "the %s's OER/PER constraint slots in the generated tables are not what the model of the emitter's decision says (T = record, N = null)" % what,
+                           "module": m["text"], "where": where, "build": var.label(), "model_command": l, "model": o[:2], "generated": got, "command_line": "descr %s %s" % (m["name"], " ".join(var.opts))})
 
 
 def _t(what):
@@ -560,7 +622,7 @@ def main(tier):
         fmods = fam_model + fam_text
         fsets = (list(QUICK_SETS) + FAMILY_SETS) if quick else family_sets_thorough()
         build_modules(fmods, tag="fopt0", opts=BASE)
-        fv = build_variants(fmods, fsets, jobs=4, prefix="fopt")
+        fv = build_variants(fmods, fsets, jobs=4, prefix="fopt", select=relevant if quick else None)
     except BuildError as e:
         run.violation("build", {"what": str(e)[-2500:]}, no_input=True)
         return run.finish("proof", (nthm, ndis))
@@ -695,7 +757,9 @@ def main(tier):
             return "C13-no-constraints-per-alphabet"
         return None
     for vs, ms in ((variants, mods), (wvariants, wmods), (fvariants, fmods)):
-        descriptor_tie(run, vs, [m["name"] for m in ms if m.get("exe")], {m["name"]: m["text"] for m in ms}, dclassify, skel_inc, lib, None)
+        tabs = descriptor_tie(run, vs, [m["name"] for m in ms if m.get("exe")], {m["name"]: m["text"] for m in ms}, dclassify, skel_inc, lib, model)
+        if vs is fvariants:
+            slots_tie(run, fvariants, fam_model, tabs, model)
     _t("descr tie done")
     # ------------------------------------------------------------ witness layers
     wis = wvariants[0].mods.get("WIS")
@@ -726,7 +790,7 @@ def main(tier):
           "builds made with -no-gen-OER / -no-gen-PER are linked with the full skeleton archive and are not asked for the disabled syntax"]
     return run.finish("proof", (nthm, ndis), trusted_base=tb,
                       checker_cmd="make -C /verif all && coqc -Q coq A1 coq/Props/Properties_C13.v",
-                      extra_cov={"theorems": names, "coqchk": coqchk, "driver_notes": run.notes[:12], "modules": len(mods), "wide_modules": len(wmods), "option_sets": [" ".join(v.opts) for v in variants],
+                      extra_cov={"family_values_not_encodable_anywhere": FAMILY_NOTES, "theorems": names, "coqchk": coqchk, "driver_notes": run.notes[:12], "modules": len(mods), "wide_modules": len(wmods), "option_sets": [" ".join(v.opts) for v in variants],
                                  "rule": "one case = one driver command line (value x syntax encoded by every build, or one distinct output decoded by every build); distinct command lines",
                                  "traces_validated_against_impl": run.cov["evaluations"]},
                       assumptions=["theorems cover the INTEGER/ENUMERATED native-vs-wide leaf (DER, BER decode, the conversions used by PER/OER); every other effect of the options is covered by the tie only",
